@@ -124,6 +124,27 @@ def rule_pair(ctx):
                 r.violation('%s:announce' % b.path, t['s'], b.path,
                             'a new global index is inserted but not (on every path) announced to the caller\'s callback with that same '
                             'value: a consumer later sees an index it was never told about')
+        # converse: an announcement of a fresh index `len(M)` must come with an insertion into M that makes len advance,
+        # otherwise the next announcement reuses the same index and overwrites this file/name in the consumer's table
+        ins = list(dedup_inserts(b))
+        for cpt, ct, kind, ops in cbs:
+            if kind not in ('source', 'name') or not ops or not is_outer_callback(f, b, ct, root_key):
+                continue
+            lens = [x for x in strip(ops[0], through_calls=set()) if x[0] == 'call' and x[1].rsplit('::', 1)[-1] == 'len' and x[2]]
+            if not lens:
+                continue
+            mroot = Origins(f, [b]).table_root(lens[0][2][0])
+            ok = False
+            for ipt, it in ins:
+                if Origins(f, [b]).table_root(b.expr_of_operand(it['args'][0])) == mroot and \
+                        (b.dominates(ipt, cpt) or b.postdominates(ipt, cpt)):
+                    ok = True
+            r.site('%s: announcement of a fresh index is paired with an insertion into the same map' % b.path, ct['s'],
+                   'ok' if ok else 'violation')
+            if not ok:
+                r.violation('%s:reserve' % b.path, ct['s'], b.path,
+                            'a fresh index `len()` is announced but nothing is inserted into that de-duplication map on this path: the '
+                            'counter does not advance, the next announced file/name gets the same index and overwrites this one')
     r.check_floor()
     return r
 
@@ -170,8 +191,48 @@ def rule_idx(ctx):
                                         'emitted %s has origin %s but this stream announces %s indices in a %s numbering (announcer passes %s): '
                                         'an index of the child\'s numbering leaks into the output (wrong or unannounced %s)' % (
                                             fld, sorted(o), kind, mode, sorted(num), kind))
+        # forwarded mappings: a chunk delivered to the caller with the child's Mapping / OriginalLocation object itself
+        # (not rebuilt) carries the child's *local* indices for both kinds
+        ol_name = ol
+        for m in members:
+            for pt, t, kind, ops in callback_calls(m):
+                if kind != 'chunk' or not ops or not is_outer_callback(f, m, t, root.key):
+                    continue
+                fwd = _forwarded_location(m, ops[1], ol_name)
+                if not fwd:
+                    continue
+                for kind2 in ('source', 'name'):
+                    num = numbering.get(kind2, set())
+                    ok = (num == {'LOCAL'}) or (not num and kind2 == 'name' and False)
+                    r.site('%s: forwards the child\'s location object unchanged; %s numbering is %s' % (
+                        m.path, kind2, 'identity' if num == {'LOCAL'} else 'renumbered/unknown'), t['s'], 'ok' if ok else 'violation')
+                    if not ok:
+                        r.violation('%s:%s:forwarded' % (root.path, kind2), t['s'], m.path,
+                                    'a chunk is delivered with the child\'s own location object (its %s index is in the child\'s numbering) but '
+                                    'this stream renumbers %s indices: the index is wrong or was never announced' % (kind2, kind2))
     r.check_floor()
     return r
+
+
+def _forwarded_location(m, mapping_expr, ol):
+    """does the Mapping passed to the callback carry an OriginalLocation that was not rebuilt here (flows from a parameter)?"""
+    for x in strip(mapping_expr, through_calls={'clone'}):
+        if x[0] == 'arg':
+            return True
+        if x[0] == 'agg' and x[2] and x[2].endswith('::Mapping'):
+            orig = dict(zip(x[4], x[5])).get('original')
+            for y in strip(orig, through_calls={'clone', 'cloned', 'take'}):
+                if y[0] == 'agg' and y[3] == 'None':
+                    continue
+                if y[0] == 'agg' and y[3] == 'Some':
+                    for z in strip(y[5][0], through_calls={'clone'}):
+                        if not (z[0] == 'agg' and z[2] == ol):
+                            return True
+                    continue
+                if y[0] == 'call' and y[1].rsplit('::', 1)[-1] in ('map', 'then_some', 'then', 'and_then'):
+                    continue   # rebuilt through an adaptor: its closure's aggregate is examined above
+                return True
+    return False
 
 
 # ---------------------------------------------------------------------------------- IDENT (C04)
@@ -537,3 +598,169 @@ def rule_advance(ctx):
                             'text differs from the generated text (SourceMapSource) columns are pushed right by generated-text lengths')
     r.check_floor()
     return r
+
+
+# ---------------------------------------------------------------------------------- STICKY (C04, C13)
+
+def rule_sticky(ctx):
+    """a pending-close flag is never overwritten while it may still be set"""
+    from ..sccp import Sccp
+    f = ctx.facts()
+    r = RuleResult('STICKY', 'ConcatSource\'s "a mapping is still open and must be closed" flag is sticky: it is cleared only right after a test '
+                             'that found it set (where the close is emitted or proven unnecessary) and otherwise only ever OR-ed, so a child '
+                             'that produces nothing (an empty source) cannot make the pending close disappear')
+    r.floor = 3
+    cc = anchors.adt_by_name(f, 'ConcatSource')
+    st = anchors.trait_path(f, 'StreamChunks')
+    roots = [b for b in f.body_list if b.promoted is None and b.d['kind'] != 'Closure' and b.d.get('impl_adt') == cc['path']
+             and b.d.get('impl_trait') == st]
+    if len(roots) != 1:
+        raise anchors.AnchorMissing('StreamChunks impl of ConcatSource')
+    root = roots[0]
+    members = group_of(f, root)
+    S = Sccp(f, root, {True, False})   # only used for its upvar resolution
+    # candidate flags: bool locals of the root captured by reference by a closure and tested before an unmapped (original: None,
+    # chunk None) emission
+    cells = {}
+    for m in members:
+        for pt, t in m.points():
+            if t['k'] != 'switch' or t['d']['k'] not in ('copy', 'move'):
+                continue
+            cell = _cell_of(S, m, root, t['d'])
+            if cell is not None:
+                cells.setdefault(cell, []).append((m, pt, t))
+    flags = []
+    for cell, tests in cells.items():
+        if root.local_ty(cell) != 'bool':
+            continue
+        # is there a closing emission (chunk-callback with original None) dominated by the true edge of one of the tests?
+        for m, pt, t in tests:
+            true_t = t['otherwise']
+            for cpt, ct, kind, ops in callback_calls(m):
+                if kind == 'chunk' and ops and (true_t == cpt[0] or true_t in m.dom().get(cpt[0], set())):
+                    for x in strip(ops[1], through_calls=set()):
+                        if x[0] == 'agg' and x[2] and x[2].endswith('::Mapping'):
+                            orig = dict(zip(x[4], x[5]))['original']
+                            if orig[0] == 'agg' and orig[3] == 'None' and cell not in flags:
+                                flags.append(cell)
+    if not flags:
+        raise anchors.AnchorMissing('no pending-close flag found in ConcatSource::stream_chunks')
+    for cell in flags:
+        tests = cells[cell]
+        for m in members:
+            for pt, s in m.points():
+                if s['k'] != 'assign':
+                    continue
+                tgt = None
+                if m is root and not s['p']['pr'] and s['p']['l'] == cell:
+                    tgt = cell
+                elif m is not root:
+                    up = S.upvar_parent_local(m, s['p'])
+                    if up is None and s['p']['pr'] == ['*']:
+                        ds = m.whole_defs(s['p']['l'])
+                        if len(ds) == 1 and ds[0][1] == 'assign' and ds[0][2]['r']['k'] == 'use' and ds[0][2]['r']['o']['k'] in ('copy', 'move'):
+                            q = ds[0][2]['r']['o']['p']
+                            up = S.upvar_parent_local(m, {'l': q['l'], 'pr': q['pr'] + ['*']})
+                    if up is not None and up[0] is root and up[1] == cell:
+                        tgt = cell
+                if tgt is None:
+                    continue
+                val = s['r']['o'].get('bool') if s['r']['k'] == 'use' and s['r']['o']['k'] == 'const' else None
+                edge = _dominating_edge(S, m, root, cell, pt)
+                carry = False
+                if val is None and s['r']['k'] == 'use' and s['r']['o']['k'] in ('copy', 'move') and not s['r']['o']['p']['pr']:
+                    V = s['r']['o']['p']['l']
+                    ds = m.whole_defs(V)
+                    if ds and all(k == 'assign' and ((d['r']['k'] == 'use' and d['r']['o']['k'] == 'const' and d['r']['o'].get('bool') is True)
+                                                      or _dominating_edge(S, m, root, cell, dpt) == 'false') for dpt, k, d in ds):
+                        carry = True
+                is_init = False
+                if m is root and val is not None:
+                    others = [p2 for p2, s2 in root.points() if p2 != pt and (
+                        (s2['k'] == 'assign' and not s2['p']['pr'] and s2['p']['l'] == cell) or
+                        (s2['k'] == 'switch' and _cell_of(S, root, root, s2['d']) == cell) or
+                        (s2['k'] == 'assign' and s2['r']['k'] == 'ref' and not s2['r']['p']['pr'] and s2['r']['p']['l'] == cell))]
+                    is_init = all(root.dominates(pt, p2) for p2 in others) and bool(others)
+                if is_init:
+                    ok, how = True, 'initialisation'
+                elif carry:
+                    ok, how = True, 'OR-carry: stays set on the path where it was set'
+                elif val is True:
+                    ok, how = True, 'sets the flag'
+                elif val is False and edge == 'true':
+                    ok, how = True, 'clears it after a test that found it set'
+                elif edge == 'false':
+                    ok, how = True, 'assigned where the flag is known to be clear'
+                elif val is False and not _reaches_test_first(m, root, pt):
+                    ok, how = True, 'initialisation'
+                else:
+                    ok, how = False, 'overwritten while it may be set'
+                if m is root and not root.dom().get(pt[0]):
+                    continue
+                if m is root and pt[0] == 0 and val is False:
+                    ok, how = True, 'initialisation'
+                r.site('%s: pending-close flag assignment — %s' % (m.path, how), s['s'], 'ok' if ok else 'violation')
+                if not ok:
+                    r.violation('%s:overwrite' % root.path, s['s'], m.path,
+                                'the pending-close flag is overwritten by a value that does not include its old value, at a point where '
+                                'it may still be set: a child producing no chunks (an empty source) makes the closing segment disappear, '
+                                'so following unmapped text is attributed to the previous original')
+    r.check_floor()
+    return r
+
+
+def _cell_of(S, m, root, o):
+    """root-local index of the bool cell an operand reads (directly in the root, or through a by-ref upvar), else None"""
+    if o['k'] not in ('copy', 'move'):
+        return None
+    p = o['p']
+    if m is root:
+        if not p['pr']:
+            ds = m.whole_defs(p['l'])
+            # temp copy of the cell
+            if len(ds) == 1 and ds[0][1] == 'assign' and ds[0][2]['r']['k'] == 'use' and ds[0][2]['r']['o']['k'] in ('copy', 'move') \
+                    and not ds[0][2]['r']['o']['p']['pr'] and len(m.defs(p['l'])) == 1:
+                return ds[0][2]['r']['o']['p']['l']
+            return p['l']
+        return None
+    # closure: follow temp copies to the upvar read
+    cur = p
+    for _ in range(4):
+        if cur['pr']:
+            break
+        ds = m.whole_defs(cur['l'])
+        if len(ds) == 1 and ds[0][1] == 'assign' and ds[0][2]['r']['k'] == 'use' and ds[0][2]['r']['o']['k'] in ('copy', 'move'):
+            cur = ds[0][2]['r']['o']['p']
+        else:
+            break
+    up = S.upvar_parent_local(m, cur)
+    if up is None and cur['pr'] == ['*']:
+        ds = m.whole_defs(cur['l'])
+        if len(ds) == 1 and ds[0][1] == 'assign' and ds[0][2]['r']['k'] == 'use' and ds[0][2]['r']['o']['k'] in ('copy', 'move'):
+            q = ds[0][2]['r']['o']['p']
+            up = S.upvar_parent_local(m, {'l': q['l'], 'pr': q['pr'] + ['*']})
+    if up is not None and up[0] is root and isinstance(up[1], int):
+        return up[1]
+    return None
+
+
+def _dominating_edge(S, m, root, cell, pt):
+    """'true' / 'false' if pt is dominated by that edge of a switch on the cell (nearest one), else None"""
+    best = None
+    dom = m.dom().get(pt[0], set())
+    for d in dom:
+        t = m.term(d)
+        if t['k'] != 'switch' or _cell_of(S, m, root, t['d']) != cell:
+            continue
+        false_t = [x[1] for x in t['targets'] if x[0] == 0]
+        true_t = t['otherwise']
+        for name, tg in (('true', [true_t]), ('false', false_t)):
+            for g in tg:
+                if (g == pt[0] or g in dom) and len(m.preds(g)) == 1:
+                    if best is None or len(m.dom().get(d, ())) > best[1]:
+                        best = (name, len(m.dom().get(d, ())))
+    return best[0] if best else None
+
+
+def _reaches_test_first(m, root, pt):
+    return m is not root or pt[0] != 0
